@@ -74,9 +74,13 @@ func genC13(t *rapid.T) C13Case {
 	}
 	// the base history may contain panic taps itself (half of the cases): several panics with state changes between them
 	steps := genHistory(t, d, HistOpts{MaxLen: 40, StateBias: 30, BurstMax: 2, NoPanic: rapid.Bool().Draw(t, "basePanicFree")})
-	// legal insertion points: no complete up/down pair held (panic would be a third action)
-	legal := legalPanicPoints(d, steps)
-	at := legal[rapid.IntRange(0, len(legal)-1).Draw(t, "at")]
+	// panic is injected at every point of the history - also while both keys of an up/down pair are held (C04 excludes a
+	// third action there; C13 quantifies over every point, and panic is the one action that must always get through);
+	// half of the cases aim at such a point when the history has one
+	at := rapid.IntRange(0, len(steps)).Draw(t, "at")
+	if pairPoints := pairHeldPoints(d, steps); len(pairPoints) > 0 && rapid.Bool().Draw(t, "atPairHeld") {
+		at = pairPoints[rapid.IntRange(0, len(pairPoints)-1).Draw(t, "atPair")]
+	}
 	hold := 0
 	if rapid.IntRange(0, 3).Draw(t, "holdPanic") == 0 {
 		hold = rapid.IntRange(0, 6).Draw(t, "hold")
@@ -99,6 +103,21 @@ func isActionKey(d *Desc, code uint16) bool {
 		}
 	}
 	return false
+}
+
+// pairHeldPoints: the positions of the history at which both keys of some up/down pair are held.
+func pairHeldPoints(d *Desc, steps []Step) []int {
+	m := NewModel(d)
+	var out []int
+	for i := 0; i <= len(steps); i++ {
+		if m.CompletePairHeld() {
+			out = append(out, i)
+		}
+		if i < len(steps) && steps[i].T == "key" {
+			m.Key(steps[i].Sub, steps[i].Code, steps[i].Val)
+		}
+	}
+	return out
 }
 
 func legalPanicPoints(d *Desc, steps []Step) []int {
